@@ -120,6 +120,20 @@ CHECKS = {
         note=('Trusted: the predicate itself (dump.h) and the public accessors it reads. Crashes while building are C01\'s '
               'subject and only counted. LSC templates are exempt from the initial-location clause.'),
     ),
+    'C15': dict(
+        engine='oracle-server multi-step requests (one process per history, fresh fork per reference) + pair/seed/poison enumeration + Hypothesis sequences (harness/py/prop_C15.py)',
+        technique='history-based differential testing: each step of a generated call history executed in one process is compared with the same call made first in a fresh process (return value / exception class, diagnostics with path, line, column, canonical document, verdict); the global position counter is seeded to cross 2^31 and 2^32',
+        category='exploration',
+        text=('A pool of 45 parsing steps (all entry points, three builders, both syntaxes, valid / diagnostic / poisoning inputs: '
+              'unterminated comments, exceptions out of the grammar, XML structural errors, missing files, failing imports) is '
+              'combined into histories: all ordered pairs, every (counter seed, offset, probe) triple, a rich XTA text damaged '
+              'at every token position followed by a rich probe, and random histories of length 3..8. The record of every step '
+              'inside a history must equal the record of that step executed alone in a fresh process.'),
+        design_ref='DESIGN.md 4/C15',
+        note=('The counter is seeded through the exported global instead of parsing gigabytes. Exception text, errno and absolute '
+              'positions are not compared. One recorded finding: the 32-bit counter wraps at 2^32 (every difference at or after '
+              'a 2^32 seed is attributed to it and counted); crossing 2^31-1 is checked without exclusion.'),
+    ),
     'C16': dict(
         engine='oracle-server + Hypothesis models x deterministic (label, token, fault) and (declaration index, token, fault) enumeration (harness/py/prop_C16.py, faults.py, tokenizer.py)',
         technique='fault injection with a metamorphic oracle: faulty vs fault-free canonical document dumps compared with the faulted label masked, attribution of every new diagnostic, prefix preservation of declarations before a faulted declaration',
